@@ -194,7 +194,7 @@ func c18(c *Ctx) {
 			cases = append(cases, reqCase{ID: "shape/" + sc.ID, Files: sc.Files, Gen: sc.Gen})
 		}
 	}
-	cases = append(cases, yamlRetypeCase(), importedMessagesCase(), threeServicesCase(), yaml11NamesCase())
+	cases = append(cases, yamlRetypeCase(), importedMessagesCase(), threeServicesCase(), yaml11NamesCase(), sameShortNameCase("nested"), sameShortNameCase("top-vs-nested"), sameShortNameCase("imported"))
 	plugin.Parallel(len(cases), 16, func(i int) {
 		rc := cases[i]
 		base := "oas/" + rc.ID
@@ -478,4 +478,42 @@ func yaml11NamesCase() reqCase {
 	f.Messages = []*spec.Message{{Name: "NReq", Fields: []*spec.Field{spec.F("n", 1, spec.Int32), spec.F("y", 2, spec.String).Q("on"), spec.F("no", 3, spec.Bool).Q("off")}}, {Name: "NResp", Fields: []*spec.Field{spec.F("yes", 1, spec.String)}}}
 	f.Services = []*spec.Service{{Name: "Yaml11Service", Methods: []*spec.Method{{Name: "Get", In: "." + pkg + ".NReq", Out: "." + pkg + ".NResp", HTTP: &spec.HTTP{Path: "/n/{n}", Verb: 1}}}}}
 	return reqCase{ID: "yaml11-names", Files: []*spec.File{f}}
+}
+
+// sameShortNameCase: two reachable messages share their short name, and each of them is the
+// only way to reach some other message.
+func sameShortNameCase(kind string) reqCase {
+	pkg := "c18.short" + strings.ReplaceAll(kind, "-", "")
+	f := &spec.File{Path: "c18/short_" + kind + ".proto", Package: pkg, GoImport: "lab/gen/c18short" + strings.ReplaceAll(kind, "-", ""), GoName: "c18short" + strings.ReplaceAll(kind, "-", "")}
+	onlyA := &spec.Message{Name: "OnlyViaFirst", Fields: []*spec.Field{spec.F("a", 1, spec.String)}}
+	onlyB := &spec.Message{Name: "OnlyViaSecond", Fields: []*spec.Field{spec.F("b", 1, spec.Int32), spec.FM("deeper", 2, "."+pkg+".Deeper")}}
+	deeper := &spec.Message{Name: "Deeper", Fields: []*spec.Field{spec.F("z", 1, spec.Bool)}}
+	files := []*spec.File{f}
+	var gen []string
+	switch kind {
+	case "nested":
+		itemA := &spec.Message{Name: "Item", Fields: []*spec.Field{spec.F("id", 1, spec.String), spec.FM("only", 2, "."+pkg+".OnlyViaFirst")}}
+		itemB := &spec.Message{Name: "Item", Fields: []*spec.Field{spec.F("num", 1, spec.Int32), spec.FM("only", 2, "."+pkg+".OnlyViaSecond")}}
+		f.Messages = []*spec.Message{onlyA, onlyB, deeper,
+			{Name: "ListA", Nested: []*spec.Message{itemA}, Fields: []*spec.Field{spec.FM("items", 1, "."+pkg+".ListA.Item").Rep()}},
+			{Name: "ListB", Nested: []*spec.Message{itemB}, Fields: []*spec.Field{spec.FM("items", 1, "."+pkg+".ListB.Item").MapOf(spec.String)}},
+			{Name: "Req", Fields: []*spec.Field{spec.FM("a", 1, "."+pkg+".ListA"), spec.FM("b", 2, "."+pkg+".ListB")}}}
+	case "top-vs-nested":
+		itemTop := &spec.Message{Name: "Item", Fields: []*spec.Field{spec.F("id", 1, spec.String), spec.FM("only", 2, "."+pkg+".OnlyViaFirst")}}
+		itemB := &spec.Message{Name: "Item", Fields: []*spec.Field{spec.F("num", 1, spec.Int32), spec.FM("only", 2, "."+pkg+".OnlyViaSecond")}}
+		f.Messages = []*spec.Message{onlyA, onlyB, deeper, itemTop,
+			{Name: "ListB", Nested: []*spec.Message{itemB}, Fields: []*spec.Field{spec.FM("items", 1, "."+pkg+".ListB.Item").Rep()}},
+			{Name: "Req", Fields: []*spec.Field{spec.FM("a", 1, "."+pkg+".Item"), spec.FM("b", 2, "."+pkg+".ListB")}}}
+	default: // imported
+		dpkg := pkg + "dep"
+		dep := &spec.File{Path: "c18/short_dep.proto", Package: dpkg, GoImport: "lab/gen/c18shortdep", GoName: "c18shortdep"}
+		dep.Messages = []*spec.Message{{Name: "Item", Fields: []*spec.Field{spec.F("num", 1, spec.Int32), spec.FM("only", 2, "."+dpkg+".OnlyViaImport")}}, {Name: "OnlyViaImport", Fields: []*spec.Field{spec.F("q", 1, spec.String)}}}
+		f.Imports = []string{dep.Path}
+		itemTop := &spec.Message{Name: "Item", Fields: []*spec.Field{spec.F("id", 1, spec.String), spec.FM("only", 2, "."+pkg+".OnlyViaFirst")}}
+		f.Messages = []*spec.Message{onlyA, itemTop, {Name: "Req", Fields: []*spec.Field{spec.FM("a", 1, "."+pkg+".Item"), spec.FM("b", 2, "."+dpkg+".Item")}}}
+		files = []*spec.File{dep, f}
+		gen = []string{f.Path}
+	}
+	f.Services = []*spec.Service{{Name: "ShortNameService", Methods: []*spec.Method{{Name: "Call", In: "." + pkg + ".Req", Out: "." + pkg + ".Req", HTTP: &spec.HTTP{Path: "/short", Verb: 2}}}}}
+	return reqCase{ID: "same-short-name/" + kind, Files: files, Gen: gen}
 }
